@@ -120,6 +120,10 @@ func C10(seed uint64, run int) *spec.Spec {
 				lk.Base = cy
 			}
 		}
+		if lk.API != 2 && r.Chance(0.12) {
+			// any day-boundary argument other than 1 must behave as 2
+			lk.Sect = r.Pick([]int{0, 3, -1, 7, 22})
+		}
 		if lk.API == 2 {
 			lk.Sect = 2
 		}
